@@ -11,12 +11,12 @@ one() {
   if ! (cd $wt && go build ./... >/dev/null 2>&1 && go test -vet=off -count=1 ./... >/dev/null 2>&1); then echo "$name	BUILD-OR-TEST-FAIL"; git -C /repo worktree remove --force $wt; return; fi
   res=""
   for p in $props; do
-    out=$(VERIF_DIR=/verif /verif/bin/jpcheck -repo $wt -property $p -no-evidence 2>&1); rc=$?
-    if [ $rc -ne 0 ]; then res="$res $p(rc=$rc)"; echo "$out" | grep -a -A1 '^violation\|^undecided\|^ANCHOR\|^VACUOUS\|^CHECKER' | head -6 | sed "s|^|    [$name $p] |" | cut -c1-330 >> /tmp/refrun_details.txt; fi
+    out=$(VERIF_DIR=/verif ${JPCHECK:-/verif/bin/jpcheck} -repo $wt -property $p -no-evidence 2>&1); rc=$?
+    if [ $rc -ne 0 ]; then res="$res $p(rc=$rc)"; echo "$out" | grep -a -A1 '^violation\|^undecided\|^ANCHOR\|^VACUOUS\|^CHECKER' | head -6 | sed "s|^|    [$name $p] |" | cut -c1-330 >> ${REFRUN_DETAILS:-/tmp/refrun_details.txt}; fi
   done
   echo "$name	${res:- silent}"
   git -C /repo worktree remove --force $wt
 }
 export -f one; export props
-: > /tmp/refrun_details.txt
+: > ${REFRUN_DETAILS:-/tmp/refrun_details.txt}
 printf '%s\n' "$@" | xargs -P 5 -I{} bash -c 'one {}' | sort
